@@ -312,3 +312,21 @@ func TestC13(t *testing.T) {
 		Col.Case(p.Hash(), p.Compact, nt, h.Labels, excluded)
 	})
 }
+
+func TestC12(t *testing.T) {
+	spec := &GenSpec{Prop: "C12", Backings: []string{"store"}, Children: exclChildren("C12"), Compaction: []int{0, 0, 1}}
+	applyExclusions(spec)
+	Col.SetProp("C12", "store-backed programs over {batch, merger cycle (each hands the dirty data to a persistence round that completes), walk back N steps with SnapshotPrevious, SnapshotRevert to the snapshot N steps back (collection closed first, then a new collection is opened on the store), drain+reopen}, compaction disabled or allowed. The oracle records the store content after every round that wrote a footer (Store.Stats total_persists delta), reset by any compaction; walking back must yield these newest first, each compared completely, then nil; a revert to a snapshot obtained since the last compaction must succeed, the store's snapshot and a reopened copy of the directory must equal the target, later batches build on it; a final full walk and reopen close every case. Non-trivial: a walk of >= 2 steps over rounds with deletions, or a revert followed by new batches. Distinct = distinct program hash.")
+	rapid.Check(t, func(rt *rapid.T) {
+		p, excluded := genC12(rt, spec)
+		c := RunC12(rt, p)
+		nt := (c.deepWalks > 0 && c.hadDel) || c.revertCont
+		if c.deepWalks > 0 {
+			c.Label("walk>=2")
+		}
+		if c.revertCont {
+			c.Label("revert-then-batches")
+		}
+		Col.Case(p.Hash(), p.Compact, nt, c.Labels, excluded)
+	})
+}
